@@ -124,11 +124,13 @@ def shard(shard_no, nshards, seed, tier, extra):
     d = common.Driver("rel", shim=True)
     for i in range(n):
         r = rng.random()
-        if r < 0.12:
+        if r < 0.03:
+            code, feats = progs.full_stack(rng)
+        elif r < 0.12:
             code, feats = progs.shared_fault(rng)
         elif r < 0.6:
             code, feats, _ = progs.controlflow(rng, underflow_p=0.15, symbolic_p=0.2,
-                                               big_stack_p=0.02 if rng.random() < 0.3 else 0.0)
+                                               big_stack_p=0.06 if rng.random() < 0.3 else 0.0)
         elif r < 0.8:
             code, g = progs.straightline(rng, evm.boundary_constants())
             feats = {"straightline"} | g.features
